@@ -188,6 +188,27 @@ def scopeOut : Option Input.Scope → Output.Scope
   | some .contextual => .contextual
   | some .nonShared => .nonShared
 
+/-- one field (fields are visited in sorted key order) -/
+def compileFieldStep (fns : List Token.FnDef) (acc : Imports.St × List Output.Field × Errs) (nv : String × Val) :
+    Imports.St × List Output.Field × Errs :=
+  match resolve argChain fns acc.1 nv.2 with
+  | (st', .ok a) => (st', acc.2.1 ++ [{ name := nv.1, value := a }], acc.2.2)
+  | (st', .error es) => (st', acc.2.1 ++ [{ name := nv.1, value := zeroArg }], acc.2.2 ++ Errs.pfx (Val.quoteStr nv.1 ++ ": ") es)
+
+def compileFields (fns : List Token.FnDef) (st : Imports.St) (fields : AMap Val) : Imports.St × List Output.Field × Errs :=
+  (AMap.sorted fields).foldl (compileFieldStep fns) (st, [], [])
+
+/-- one call (calls are visited in declaration order) -/
+def compileCallStep (fns : List Token.FnDef) (acc : Imports.St × List Output.Call × Errs × Nat) (c : Input.Call) :
+    Imports.St × List Output.Call × Errs × Nat :=
+  let r := resolveArgs fns acc.1 c.args
+  (r.1, acc.2.1 ++ [{ method := c.method, args := r.2.1, immutable := c.immutable }],
+    acc.2.2.1 ++ Errs.pfx (toString acc.2.2.2 ++ ": ") r.2.2, acc.2.2.2 + 1)
+
+def compileCalls (fns : List Token.FnDef) (st : Imports.St) (calls : List Input.Call) :
+    Imports.St × List Output.Call × Errs × Nat :=
+  calls.foldl (compileCallStep fns) (st, [], [], 0)
+
 /-- `processService` + `processScopes` for one service. Order of `Alias` calls: fields (sorted),
 arguments, calls, then type, value, constructor. -/
 def compileService (name : String) (svc : Input.Service) (defaultMust : Option Bool)
@@ -195,27 +216,13 @@ def compileService (name : String) (svc : Input.Service) (defaultMust : Option B
   if svc.todo.getD false then
     ({ name := name, todo := true, scope := scopeOut svc.scope }, st, [])
   else
-    -- fields
-    let (st1, fields, fErrs) := (AMap.sorted svc.fields).foldl
-      (fun (acc : Imports.St × List Output.Field × Errs) (n, v) =>
-        let (st, fs, errs) := acc
-        match resolve argChain fns st v with
-        | (st', .ok a) => (st', fs ++ [{ name := n, value := a }], errs)
-        | (st', .error es) => (st', fs ++ [{ name := n, value := zeroArg }], errs ++ Errs.pfx (Val.quoteStr n ++ ": ") es))
-      (st, [], [])
-    let fErrs := Errs.pfx "fields: " fErrs
-    -- arguments
-    let (st2, args, aErrs) := resolveArgs fns st1 svc.args
-    -- calls
-    let (st3, calls, cErrs, _) := svc.calls.foldl
-      (fun (acc : Imports.St × List Output.Call × Errs × Nat) c =>
-        let (st, cs, errs, j) := acc
-        let (st', as, es) := resolveArgs fns st c.args
-        (st', cs ++ [{ method := c.method, args := as, immutable := c.immutable }],
-          errs ++ Errs.pfx (toString j ++ ": ") es, j + 1)) (st2, [], [], 0)
-    let cErrs := Errs.pfx "calls: " cErrs
+    let rf := compileFields fns st svc.fields
+    let fErrs := Errs.pfx "fields: " rf.2.2
+    let ra := resolveArgs fns rf.1 svc.args
+    let rc := compileCalls fns ra.1 svc.calls
+    let cErrs := Errs.pfx "calls: " rc.2.2.1
     let (g, mg, gErr) := compileGetter svc.getter svc.mustGetter defaultMust
-    let (st4, ty) := serviceType st3 svc.type
+    let (st4, ty) := serviceType rc.1 svc.type
     let (st5, val) := match svc.value with
       | none => (st4, "")
       | some v => compileServiceValue st4 v.toList
@@ -223,10 +230,10 @@ def compileService (name : String) (svc : Input.Service) (defaultMust : Option B
       | none => (st5, "")
       | some c => goFuncRef st5 c
     ({ name := name, getter := g, mustGetter := mg, type := ty, value := val, constructor := ctor,
-       args := args, calls := calls, fields := fields,
+       args := ra.2.1, calls := rc.2.1, fields := rf.2.1,
        tags := svc.tags.map fun t => { name := t.name, priority := t.priority },
        scope := scopeOut svc.scope, todo := false },
-     st6, Errs.pfx (Val.quoteStr name ++ ": ") (fErrs ++ aErrs ++ cErrs ++ gErr))
+     st6, Errs.pfx (Val.quoteStr name ++ ": ") (fErrs ++ ra.2.2 ++ cErrs ++ gErr))
 
 /-- `StepCompileServices` -/
 def compileServices (i : Input.Input) (fns : List Token.FnDef) (st : Imports.St) :
